@@ -44,6 +44,12 @@ fn main() {
                 replay = Some(args.get(i).cloned().unwrap_or_else(|| usage()));
             }
             "--fuzz-only" => fuzz_only = true,
+            "--describe-hostile" => {
+                i += 1;
+                let data = std::fs::read(args.get(i).cloned().unwrap_or_else(|| usage())).unwrap_or_default();
+                println!("{}", tvh::fuzz::describe_hostile(&data));
+                std::process::exit(0);
+            }
             "--worker" => {
                 // subprocess worker protocol: tvh <ID> --worker <family> <args...>
                 let rest: Vec<String> = args[i + 1..].to_vec();
